@@ -18,6 +18,14 @@ def classify(r):
     what = r.get("what", "")
     if r.get("e") == "Abort":
         return abort_key(r)
+    # completeness losses of the all-parses DAG (nothing spurious): recognised by the make_parse hook
+    # events of this very parse
+    if what in ("translation missing from the all-parses result", "minimal translation missing from the result",
+                "denoted tree is not of minimal cost"):
+        if r.get("mp2", 0) > 0:
+            return "F21-reused-anode-loses-alternatives"
+        if r.get("mp1", 0) > 0:
+            return "F19-untranslated-multi-origin"
     return mismatch_key(r)
 
 
@@ -47,6 +55,9 @@ def check_C01(res, scratch, tier, seed):
     # F2: all grammars with <= 2 rules, |rhs| <= 2, 2 terminals, 2 nonterminals, inputs <= 4
     run_family(res, scratch, "F2", mcgram_cfg([1, 2], [11, 12], 2, 2, 4, False, [0], False, ("Emit", "Lemmas")),
                mk("ascii"), builds=builds + [asan], mine=only("C01"))
+    # translation variants matter for recognition too (a NULL root for a sentence was one of the defects found)
+    run_family(res, scratch, "T2v", mcgram_cfg([1], [11, 12], 2, 2, 3, False, [0, 1, 3, 4, 7], False), mk("zero"),
+               builds=builds, mine=only("C01"))
     if tier == "thorough":
         run_family(res, scratch, "F3", mcgram_cfg([1, 2], [11, 12], 3, 2, 4, False, [0], False), mk("sparse"),
                    builds=builds, mine=only("C01"), timeout=3000)
@@ -64,3 +75,67 @@ def replay(path):
     d = json.load(open(path))
     print(json.dumps(d, indent=1)[:4000])
     return 0
+
+
+# ------------------------------------------------------------------ translation families (C02-C05)
+def trans_families(tier):
+    """(tag, cfg) list: skeletons x per-rule translation variants, trees emitted."""
+    fams = [("T2a", mcgram_cfg([1], [11, 12], 2, 2, 4, False, [0, 1, 2, 3, 4, 5, 7, 8], True)),
+            ("T3amb", mcgram_cfg([1], [11], 3, 2, 5, False, [1, 4, 9], True))]
+    if tier == "thorough":
+        fams += [("T2b", mcgram_cfg([1, 2], [11, 12], 2, 2, 4, False, [0, 1, 4, 5, 6, 7], True)),
+                 ("T3c", mcgram_cfg([1], [11, 12], 3, 2, 4, False, [1, 4, 5], True))]
+    return fams
+
+
+def check_trans(res, scratch, tier, seed, prop, matrix, rule):
+    builds = std_builds(scratch, tier)
+    res.cov["trusted_base"] = TB
+    res.cov["rule"] = rule
+    mk = lambda vec: blocks_from_vector(vec, matrix, codemap="ascii", mems=(0, 0, 1, 2))
+    for tag, cfg in trans_families(tier):
+        run_family(res, scratch, tag, cfg, mk, builds=builds, mine=only(prop), timeout=3000)
+    res.cov["exhaustive"] = True
+    res.assumptions = ["small-scope: exhaustive only over the stated families",
+                       "expected translation sets are computed by TLC from spec/Trans.tla (least fixed point over spans)"]
+
+
+def check_C02(res, scratch, tier, seed):
+    check_trans(res, scratch, tier, seed, "C02", full_matrix(ones=(1,), costs=(0,), recs=(0, 1)),
+                "every grammar of the skeleton x translation-variant families; TLC computes Trans!Translations for every input; "
+                "with one_parse the canonicalised returned tree must be a member, without ALT nodes, single NIL/ERROR exemplar, "
+                "TERM code/attribute of the token at the position; non-trivial = accepted grammar with alternatives/recursion/nullables")
+
+
+def check_C03(res, scratch, tier, seed):
+    check_trans(res, scratch, tier, seed, "C03", full_matrix(ones=(0,), costs=(0,), recs=(0, 1)),
+                "same families, all parses: the set of trees denoted by the returned DAG (one alternative per ALT occurrence) must "
+                "equal Trans!Translations computed by TLC; acyclic; no ALT directly under ALT")
+
+
+def check_C04(res, scratch, tier, seed):
+    check_trans(res, scratch, tier, seed, "C04", full_matrix(ones=(0, 1), costs=(1,), recs=(0,)),
+                "same families with the cost flag: denoted set = Trans!MinOf(Translations) (all parses) or one member of it (one parse); "
+                "the own cost of every abstract node is recovered as field - sum(children fields) and is part of the compared tree, "
+                "so cost fields that do not add up are rejected")
+
+
+def check_C05(res, scratch, tier, seed):
+    check_trans(res, scratch, tier, seed, "C05", full_matrix(ones=(0, 1), costs=(0,), recs=(0, 1)),
+                "same families: ambiguous_p != 0 only if Deriv!NDerivCapped = 2, and always when |Trans!Translations| >= 2")
+
+
+# ------------------------------------------------------------------ C10
+def check_C10(res, scratch, tier, seed):
+    builds = std_builds(scratch, tier)
+    res.cov["trusted_base"] = TB
+    res.cov["rule"] = ("every rule sequence of the family, unfiltered, defined with strict = 1 and strict = 0; expected: rc = 0 iff CFG!Defects = {} "
+                       "else rc in Defects, error_code = rc, next parse refused; non-trivial = any grammar with >= 1 rule")
+    mk = lambda vec: blocks_from_vector(vec, [], define_only=True)
+    mine = lambda r: classify(dict(r)) if owner(r["what"], r["cfg"]) in ("C10",) else None
+    run_family(res, scratch, "F2", mcgram_cfg([1, 2], [11, 12], 2, 2, 0, False, [0], False), mk, builds=builds, mine=mine)
+    run_family(res, scratch, "F2e", mcgram_cfg([1], [11, 12], 2, 2, 0, True, [0, 4], False), mk, builds=builds, mine=mine)
+    if tier == "thorough":
+        run_family(res, scratch, "F3", mcgram_cfg([1, 2], [11, 12], 3, 2, 0, False, [0], False), mk, builds=builds, mine=mine, timeout=3000)
+    res.cov["distinct_nontrivial"] = sum(f["vectors"] for f in res.notes["families"])
+    res.cov["exhaustive"] = True
